@@ -50,6 +50,13 @@ NY == FFrob2(Y)
 ScoreClause(f) == IF NX = 0 \/ NY = 0 THEN "ok"
                   ELSE IF FAbs(FMul(-f.score, FMul(NX, NY)) - (FMul(LX(f), NY) + FMul(LY(f), NX))) > 8 * (NX \div S + NY \div S + 4) * (n * m + 8) + FMul(NX, NY) \div 300
                        THEN "score-differs-from-minus-sum-of-relative-losses" ELSE "ok"
+\* the same on data the model was not fitted on: score(Xn, Yn) = -(|Xn - Xr_n|^2/|Xn|^2 + |Yn - Yp_n|^2/|Yn|^2)
+XnF(f) == [i \in 1..Len(f.Xn) |-> [j \in 1..m |-> f.Xn[i][j] * (S \div 4)]]
+ScoreNewClause(f) == IF f.Yn = <<>> THEN "ok"
+                     ELSE LET xn == XnF(f)  nx == FFrob2(xn)  ny == FFrob2(f.Yn)  lx == FFrob2(FSub(xn, f.Xrn))  ly == FFrob2(FSub(f.Yn, f.Ypn)) IN
+                          IF nx <= 64 \/ ny <= 64 \/ nx > 400 * S \/ ny > 400 * S \/ FAbs(f.scoren) > 400 * S THEN "ok"
+                          ELSE IF FAbs(FMul(-f.scoren, FMul(nx, ny)) - (FMul(lx, ny) + FMul(ly, nx))) > 8 * (nx \div S + ny \div S + 4) * (3 * m + 8) + FMul(nx, ny) \div 300 + FMul(FAbs(f.scoren), FMul(nx, ny)) \div 300
+                               THEN "score-on-new-data-differs-from-minus-sum-of-relative-losses" ELSE "ok"
 \* nestedness and monotone losses along k for the fits of one (space, mixing) group, full solver, ordered by k
 Chain(g) == C.chains[g]
 NestClause(g) == IF \E q \in 1..Len(Chain(g)) - 1 : LET f1 == F[Chain(g)[q]] f2 == F[Chain(g)[q + 1]] IN
@@ -60,7 +67,7 @@ NestClause(g) == IF \E q \in 1..Len(Chain(g)) - 1 : LET f1 == F[Chain(g)[q]] f2 
                  THEN "training-loss-increases-with-k"
                  ELSE "ok"
 First(s) == LET bad == {i \in 1..Len(s) : s[i] # "ok"} IN IF bad = {} THEN "ok" ELSE s[SetMin(bad)]
-C14Clause == First([i \in 1..NF |-> C14Fit(F[i])] \o [i \in 1..NF |-> ScoreClause(F[i])] \o [g \in 1..Len(C.chains) |-> NestClause(g)])
+C14Clause == First([i \in 1..NF |-> C14Fit(F[i])] \o [i \in 1..NF |-> ScoreClause(F[i])] \o [i \in 1..NF |-> ScoreNewClause(F[i])] \o [g \in 1..Len(C.chains) |-> NestClause(g)])
 (* ------------------------------ C03 ------------------------------ *)
 \* eigen-certificate of one fit:  Kt T = T Lam,  T^T T = Lam,  Lam decreasing, ev = lam/(n-1)
 EigBud(f, K) == 4 * n * (Mag(K) + Mag(f.T) + 2) + FMaxAbs(TLam(f)) \div 400
